@@ -35,7 +35,7 @@ def observe_program(P, givens, seed):
         is_async = rng.random() < 0.3
         mc = rng.randint(1, 4)
         row = {"given": [pg.encode(x) for x in given], "raised": False, "errclass": "", "val": pg.verr(), "exec": [],
-               "dup": False, "async": is_async, "built": True, "twice": False, "mc": mc}
+               "dup": False, "async": is_async, "built": True, "twice": False, "mc": mc, "conc": 0, "loop": 0}
         try:
             d, flat = pr.build(P, rand_attrs(rng), is_async=is_async, mc=mc)
             how = rng.random()
@@ -156,7 +156,7 @@ def run(tier, seed, log=common.say):
         used = sorted({r["p"] for r in b})
         remap = {p: k + 1 for k, p in enumerate(used)}
         path = os.path.join(common.CACHE, f"e2-{os.getpid()}-{i}.json")
-        rows = [{"p": remap[r["p"]], **{k: r[k] for k in ("given", "raised", "errclass", "val", "exec", "dup", "async", "built", "twice")}} for r in b]
+        rows = [{"p": remap[r["p"]], **{k: r[k] for k in ("given", "raised", "errclass", "val", "exec", "dup", "async", "built", "twice", "conc", "loop")}} for r in b]
         with open(path, "w") as f:
             json.dump({"progs": [stripped[p - 1] for p in used], "obs": rows}, f)
         try:
@@ -286,7 +286,7 @@ def replay(payload, log=common.say):
     P = payload["prog"]
     given = [pg.decode(x) for x in payload["given"]]
     row = {"p": 1, "given": payload["given"], "raised": False, "errclass": "", "val": pg.verr(), "exec": [], "dup": False,
-           "async": payload.get("async", False), "built": True, "twice": False}
+           "async": payload.get("async", False), "built": True, "twice": False, "conc": 0, "loop": 0}
     try:
         d, flat = pr.build(P, lambda k: {}, is_async=row["async"], mc=2)
         r = pr.run_real(d, flat, payload["given"], row["async"])
